@@ -23,3 +23,33 @@ Theorem C17_redis_totals_nonnegative : forall ops, Forall sop_wf ops ->
   let '(i, s, l) := red_prom (run_redis ops) in 0 <= i /\ 0 <= s /\ 0 <= l.
 Proof. exact redis_totals_nonnegative. Qed.
 Print Assumptions C17_redis_totals_nonnegative.
+
+(* ---- Redis store, concurrent announce operations (any number of instances: all state is in Redis):
+   once every operation has finished, the keyspace is that of the sequential history in the order of
+   the first round-trips, and the exported totals are exact for it *)
+From Chihaya Require Import Model.Conc Proofs.ConcP.
+Theorem C17_redis_quiescent_totals_exact : forall (h0 : list sop) (oss : list (list rop)) sched,
+  Forall sop_wf h0 -> Forall (Forall rop_wf) oss ->
+  let m0 := (rshared_of (run_redis h0), map rop_thread oss) in
+  complete rsem sched m0 ->
+  let final := rst (rrun sched m0).1 in
+  let h := h0 ++ rops_sops (rstarted sched m0) in
+  (forall k, r_hash k final = r_hash k (run_redis h)) /\
+  red_prom final = (red_registered final, sm_total_seeders (run_spec h), sm_total_leechers (run_spec h)).
+Proof. exact redis_quiescent_totals_exact. Qed.
+Print Assumptions C17_redis_quiescent_totals_exact.
+
+(* two concurrent expiry passes: the statement is FALSE of the faithful model (finding F11, open) -
+   the swarm total ends at -1 with no swarm registered, although two passes in sequence leave 0 *)
+Theorem C17_redis_double_gc_decr_refuted :
+  exists (h0 : list sop) (T : Z) (sched : list nat),
+    Forall sop_wf h0 /\
+    let st0 := run_redis h0 in
+    let final := rrun sched (rshared_of st0, [rgc_thread T; rgc_thread T]) in
+    red_prom st0 = (1, 1, 0) /\
+    finishedb final = true /\
+    r_get (k_ihcount false) (rst final.1) = -1 /\ red_registered (rst final.1) = 0 /\
+    hs (rst final.1) = ∅ /\
+    red_prom (red_gc T (red_gc T st0)) = (0, 0, 0).
+Proof. exact redis_double_gc_decr_refuted. Qed.
+Print Assumptions C17_redis_double_gc_decr_refuted.
